@@ -77,6 +77,20 @@ def check_c09(prop, tier):
     rep = new_report(prop, tier, VERUS_TECH + " (unit bus: Bus::read/Bus::write/ioport helpers, whole-map frame contract, history lemma by induction) + Kani harnesses for the big-endian word/long helpers")
     custom_check.run_verus_unit(rep, prop, "bus", "Bus::read, Bus::write, Bus::read_ddr, Bus::write_dr, Bus::read_dr, Bus::write_port, Bus::on_write_ddr, Bus::on_write_dr")
     custom_check.run_custom(rep, prop)
+    n, fails = native.c09_bounded()
+    if n is None:
+        rep.inconclusive.append("native bounded C09 enumeration did not build/run: %s" % str(fails)[-300:])
+    else:
+        for c in native.C09_CLAUSES:
+            o = rep.add(Obl("C09/bounded/" + c, "native exhaustive enumeration over the address map (bounded: fixed value patterns)", unit="native_c09_bounded", fn="Bus::read, Bus::write (real, with the peripheral link of a real Cpu)"))
+            if c in fails:
+                o.status = FAILED
+                o.detail = fails[c]
+                o.witness = {"access": fails[c]}
+            else:
+                o.status = DISCHARGED
+        rep.bounds.append("C09/bounded/*: all 2^24 addresses + 9 above classified; all %d accessible addresses except the port registers written with an address-dependent pattern, read back after all other writes, rewritten with 26 neighbours watched (BOUNDED natively: fixed value patterns; not counted as proved)" % n[1])
+        rep.cmds.append("cargo test --offline native_c09_bounded (RUSTFLAGS=--cfg koge29_verif, KOGE29_C09=1)")
     rep.assumptions.append("timer register bytes are additionally written by the owning peripheral: update_timer8_0 writes TCNT0/TCSR0 only (C17 frame obligation)")
     rep.assumptions.append("machine integers are not treated as mathematical: Verus keeps u32/usize with overflow obligations")
     return rep.finish(native.find_witness)
